@@ -1443,7 +1443,13 @@ long __wrap_splice(int fdin, off_t *offin, int fdout, off_t *offout, size_t len,
 /* ---- processes and signals ------------------------------------------------------ */
 pid_t __wrap_fork(void)
 {
-	pid_t p = __real_fork();
+	pid_t p;
+	int inj = in_child ? 0 : fault_check("fork");
+	if (inj) {
+		errno = inj;
+		return -1;
+	}
+	p = __real_fork();
 	if (p == 0)
 		in_child = 1;
 	else
